@@ -189,6 +189,24 @@ CHECKS = {
         note="A fault is an error returned by the driver at that statement; a process crash is equivalent for sqlite (the open "
              "transaction is rolled back on reopen) and is not separately driven. Postgres primary is not exercised.",
         ref="DESIGN.md 4 C15"),
+    "C16": dict(
+        module="KMConc",
+        technique="TLA+ load/modify/save process model (TLC: atomic spec serialisable, as-built granularity as negative control) "
+                  "+ every interleaving of real handler pairs at storage-operation granularity under a deterministic "
+                  "scheduler + TLC monitor deciding sequential equivalence; Go race detector on free-running mixes",
+        text="KMConc gives each profile-touching handler its sequential meaning (Result / Apply on an abstract profile) and "
+             "defines Serializable, NotUndone and OneSpend; TLC checks them for all pairs (thorough: triples) of the 14 "
+             "operations under the atomic (required) semantics and finds the violations under the as-built load/save split. "
+             "On the implementation, a scheduler inside a wrapping SQL driver lets exactly one request run at a time and "
+             "switches at every profile load / write-transaction begin, so every interleaving of every handler pair on the "
+             "same user is executed against real sqlite storage; the TLC monitor accepts a run iff its answers and final "
+             "stored profile equal those of some one-after-another order. A -race build runs a seeded concurrent mix of "
+             "login, U2F sign, VIP push, TOTP, token management, readiness and the real cleanup loop; a report with a "
+             "keymaster frame fails G_C16_NoRace.",
+        note="Known findings K16-* record the pervasive lost-update / double-spend anomalies (no transaction across load and "
+             "save); a new operation name, a new anomaly or a sequential-schedule deviation is still a violation. Pre-emption "
+             "inside Go code between storage operations is only covered by the race detector.",
+        ref="DESIGN.md 4 C16"),
 }
 PENDING_REASON = "check not built yet in this session (specification module planned in DESIGN.md section 4); not claimed until its check runs clean on the unchanged tree"
 ALL = ["C%02d" % i for i in range(1, 21)]
